@@ -273,6 +273,52 @@ def _native_probe(which, nasties=None):
                     if gf.chart.plots[0].series[0].name != nasty:
                         return (True, "%s series name reads %r (given %r)" % (ct, gf.chart.plots[0].series[0].name, nasty))
             return (False, "series names and categories with markup characters read back verbatim")
+        if which == "string-properties":
+            # string-accepting setters that store through the element API rather than a template: reader returns the same string,
+            # in memory and after save / re-open
+            from pptx.chart.data import CategoryChartData
+            from pptx.enum.chart import XL_CHART_TYPE
+
+            def carriers(sl):
+                shp = sl.shapes[0]
+                run = shp.text_frame.paragraphs[0].runs[0]
+                ch = sl.shapes[1].chart
+                cell = sl.shapes[2].table.cell(0, 0)
+                return [("shape.name", shp, "name"), ("slide.name", sl, "name"), ("run.text", run, "text"), ("run.hyperlink.address", run.hyperlink, "address"),
+                        ("shape.click_action.hyperlink.address", sl.shapes[3].click_action.hyperlink, "address"), ("font.name", run.font, "name"),
+                        ("tick_labels.number_format", ch.value_axis.tick_labels, "number_format"), ("data_labels.number_format", ch.plots[0].data_labels, "number_format"),
+                        ("chart title text", ch.chart_title.text_frame, "text"), ("cell.text", cell, "text"), ("notes text", sl.notes_slide.notes_text_frame, "text"),
+                        ("graphic frame name", sl.shapes[1], "name")]
+
+            for k, nasty in enumerate(nasties):
+                sl = prs.slides.add_slide(prs.slide_layouts[6])
+                sl.shapes.add_textbox(0, 0, 10, 10).text_frame.paragraphs[0].add_run().text = "x"
+                cd = CategoryChartData()
+                cd.categories = ["a"]
+                cd.add_series("s", (1,))
+                sl.shapes.add_chart(XL_CHART_TYPE.COLUMN_CLUSTERED, 0, 0, 10, 10, cd).chart.plots[0].has_data_labels = True
+                sl.shapes.add_table(1, 1, 0, 0, 10, 10)
+                sl.shapes.add_shape(1, 0, 0, 10, 10)
+                for label, obj, attr in carriers(sl):
+                    setattr(obj, attr, nasty)
+                for label, obj, attr in carriers(sl):
+                    if getattr(obj, attr) != nasty:
+                        return (True, "%s = %r reads back %r" % (label, nasty, getattr(obj, attr)))
+            cp = prs.core_properties
+            for attr in ("author", "title", "subject", "keywords", "comments", "category", "content_status", "identifier", "language", "last_modified_by", "version"):
+                setattr(cp, attr, nasties[(len(attr) * 7) % len(nasties)])
+            buf = io.BytesIO()
+            prs.save(buf)
+            prs2 = Presentation(io.BytesIO(buf.getvalue()))
+            for k, nasty in enumerate(nasties):
+                for label, obj, attr in carriers(prs2.slides[k + 1]):
+                    if getattr(obj, attr) != nasty:
+                        return (True, "%s = %r reads %r after save and re-open" % (label, nasty, getattr(obj, attr)))
+            for attr in ("author", "title", "subject", "keywords", "comments", "category", "content_status", "identifier", "language", "last_modified_by", "version"):
+                want = nasties[(len(attr) * 7) % len(nasties)]
+                if getattr(prs2.core_properties, attr) != want:
+                    return (True, "core_properties.%s = %r reads %r after save and re-open" % (attr, want, getattr(prs2.core_properties, attr)))
+            return (False, "string properties set through the element API read back verbatim, also after save / re-open")
         if which == "ole-progid":
             for nasty in nasties:
                 gf = slide.shapes.add_ole_object(io.BytesIO(b"hello"), nasty, Emu(0), Emu(0), Emu(10), Emu(10))
@@ -298,7 +344,7 @@ def _replay(model, rec):
             return {"confirmed": bool(failed), "witness_class": "markup-injection:" + which, "detail": "%s with strings holding \" & < ; and entity look-alikes: %s" % (which, detail)}
     if not origin:
         # bounded stand-in of a contract that left the supported subset: every public-API scenario
-        for which in sorted(set(PROBE_FOR.values())):
+        for which in sorted(set(PROBE_FOR.values()) | {"string-properties"}):
             failed, detail = _native_probe(which)
             if failed:
                 return {"confirmed": True, "witness_class": "markup-injection:" + which, "detail": "%s: %s" % (which, detail)}
@@ -312,7 +358,7 @@ def _native_strings(tier="quick", seed=0):
 
     t0 = _t.time()
     obls = []
-    for which in sorted(set(PROBE_FOR.values())):
+    for which in sorted(set(PROBE_FOR.values()) | {"string-properties"}):
         failed, detail = _native_probe(which)
         r = {"name": "C05.native.strings_stay_data[%s]" % which, "base": "C05.native.strings_stay_data[%s]" % which, "kind": "bounded",
              "status": "refuted" if failed else "discharged", "backend": "native", "time": 0, "path": 0}
